@@ -6,7 +6,9 @@ package props
 
 import (
 	"fmt"
+	"net"
 	"sort"
+	"strings"
 	"testing"
 	"time"
 
@@ -113,5 +115,127 @@ func execFailure(s *mainSession, err error) *kit.Finding {
 
 func TestC09_Config(t *testing.T) {
 	p := kit.Prop[C09Case]{ID: "C09", Name: "Config", Quick: 400, Thorough: 40000, Gen: genC09, Run: runC09}
+	p.Execute(t)
+}
+
+// ---- one socket named twice under different spellings ---------------------------------------------
+// Two owners (two services, or a legacy port and a service) that name the same socket in different spellings
+// cannot both own it. The server may refuse such a configuration (it does: the second bind fails); if it loads
+// it, the socket must still belong to one owner: keys of both owners authenticating on it, or a key that
+// authenticates only now and then, means connections are handed to a service that does not own the listener.
+
+type C09Respell struct {
+	Universe []kit.KeySpec `json:"universe"`
+	Type     string        `json:"type"` // tcp | udp
+	Pair     int           `json:"pair"`
+	Seed     int64         `json:"seed"`
+	Extra    GConfig       `json:"extra"` // unrelated services around the contested one
+}
+
+var c09Pairs = [][3]string{ // spelling of owner A, spelling of owner B, address to probe
+	{"0.0.0.0", "::", "127.0.0.1"}, {"::", "0.0.0.0", "127.0.0.1"}, {"127.0.0.1", "::ffff:127.0.0.1", "127.0.0.1"}, {"::ffff:127.0.0.1", "127.0.0.1", "127.0.0.1"},
+	{"::1", "0:0:0:0:0:0:0:1", "::1"}, {"0:0:0:0:0:0:0:1", "::1", "::1"}, {"legacy", "::", "127.0.0.1"}, {"legacy", "0.0.0.0", "127.0.0.1"}, {"::", "legacy", "127.0.0.1"},
+}
+
+func genC09Respell(t *rapid.T) C09Respell {
+	c := C09Respell{Universe: kit.GenKeyUniverse(t, 2, 5), Type: rapid.SampledFrom([]string{"tcp", "tcp", "udp"}).Draw(t, "type"), Pair: rapid.IntRange(0, len(c09Pairs)-1).Draw(t, "pair"), Seed: rapid.Int64Range(1, 1<<40).Draw(t, "seed")}
+	if rapid.Bool().Draw(t, "extra") {
+		c.Extra = genConfig(t, c.Universe, "x")
+		c.Extra.Legacy = nil
+		for i := range c.Extra.Services { // keep clear of the contested slot
+			var ls []GListener
+			for _, l := range c.Extra.Services[i].Listeners {
+				if l.Slot != 2 {
+					ls = append(ls, l)
+				}
+			}
+			c.Extra.Services[i].Listeners = ls
+		}
+	}
+	return c
+}
+
+func runC09Respell(c C09Respell, info *kit.Info) *kit.Finding {
+	pair := c09Pairs[c.Pair%len(c09Pairs)]
+	if (pair[2] == "::1" || pair[0] == "::" || pair[1] == "::") && !kit.HaveAddr("::1") {
+		info.Skipped = "no IPv6 loopback"
+		return nil
+	}
+	s, why := newMainSession(c.Seed)
+	if s == nil {
+		info.Skipped = why
+		return nil
+	}
+	defer s.close()
+	ka := kit.KeySpec{ID: "owner-a", Cipher: kit.Chacha, Secret: "respell-a"}
+	kb := kit.KeySpec{ID: "owner-b", Cipher: kit.AES128, Secret: "respell-b"}
+	port := s.pt.ports[2]
+	var svc, legacy strings.Builder
+	svc.WriteString("services:\n")
+	for i, sp := range pair[:2] {
+		k := []kit.KeySpec{ka, kb}[i]
+		if sp == "legacy" {
+			fmt.Fprintf(&legacy, "keys:\n  - id: %s\n    port: %d\n    cipher: %s\n    secret: %s\n", k.ID, port, k.Cipher, k.Secret)
+			continue
+		}
+		fmt.Fprintf(&svc, "  - listeners:\n      - type: %s\n        address: %s\n    keys:\n      - id: %s\n        cipher: %s\n        secret: %s\n", c.Type, yq(net.JoinHostPort(sp, fmt.Sprint(port))), k.ID, k.Cipher, k.Secret)
+	}
+	extra := strings.TrimPrefix(c.Extra.renderYAML(s.pt), "services:\n")
+	yaml := svc.String() + extra + legacy.String()
+	path := s.writeConfig(yaml)
+	r, err := s.ex.Do(map[string]any{"cmd": "run", "config": path}, 20*time.Second)
+	if err != nil {
+		return execFailure(s, err)
+	}
+	info.NonTrivial = true
+	info.Class("respell:"+pair[0]+"+"+pair[1], fmt.Sprintf("respell-loaded:%v", r.OK))
+	if !r.OK {
+		return nil // refused as a whole: nobody is served by a contradictory configuration
+	}
+	probe := net.JoinHostPort(pair[2], fmt.Sprint(port))
+	var auth [2][]bool
+	for round := 0; round < 6; round++ {
+		for i, k := range []kit.KeySpec{ka, kb} {
+			var pr probeResult
+			var f *kit.Finding
+			if c.Type == "tcp" {
+				pr, f, err = s.probeTCP(probe, k.Key())
+			} else {
+				pr, f, err = s.probeUDP(probe, k.Key())
+			}
+			if err != nil {
+				return execFailure(s, err)
+			}
+			if f != nil {
+				return f
+			}
+			info.Steps++
+			if pr.NoVerdict || !pr.Listening {
+				continue
+			}
+			auth[i] = append(auth[i], pr.Auth)
+		}
+	}
+	some := func(b []bool) (any, all bool) {
+		all = len(b) > 0
+		for _, x := range b {
+			any = any || x
+			all = all && x
+		}
+		return
+	}
+	anyA, allA := some(auth[0])
+	anyB, allB := some(auth[1])
+	if anyA && anyB {
+		return kit.Violation("config:socket-serves-two-services", "%s %s is named by two owners (%q and %q); the configuration loaded and the keys of BOTH authenticate on it (owner A's key: %v, owner B's key: %v): clients of one service are served by a listener of another\n%s", c.Type, probe, pair[0], pair[1], auth[0], auth[1], yaml)
+	}
+	if anyA != allA || anyB != allB {
+		return kit.Violation("config:unstable-ownership", "%s %s is named by two owners (%q and %q); the configuration loaded and a key authenticates only some of the time (owner A's key: %v, owner B's key: %v)\n%s", c.Type, probe, pair[0], pair[1], auth[0], auth[1], yaml)
+	}
+	return nil
+}
+
+func TestC09_Respelled(t *testing.T) {
+	p := kit.Prop[C09Respell]{ID: "C09", Name: "Respelled", Quick: 60, Thorough: 3000, Gen: genC09Respell, Run: runC09Respell}
 	p.Execute(t)
 }
